@@ -5,8 +5,10 @@ fair sweeps of fresh pulls converge to the join of everything written.
 -/
 import MstVerif.Proofs.SyncN
 
+set_option linter.unusedSectionVars false
+
 namespace Mst
-variable {K V D : Type} [LinearOrder K] [LinearOrder V] [DecidableEq D]
+variable {K V D : Type} [LinearOrder K] [SemilatticeSup V] [DecidableEq V] [DecidableEq D]
 
 /-- The join of everything written by the write operations of an extended schedule. -/
 def written2 (ops : List (SyncOp2 K V)) (k : K) : Option V :=
@@ -28,7 +30,7 @@ def plainOf : List (SyncOp2 K V) → List (SyncOp K V)
   | .hash _ :: ops => plainOf ops
   | .fetchStale _ _ _ :: ops => plainOf ops
 
-omit [LinearOrder K] [LinearOrder V] in
+omit [LinearOrder K] [SemilatticeSup V] [DecidableEq V] in
 theorem plainOf_cons (op : SyncOp2 K V) (ops : List (SyncOp2 K V)) :
     plainOf (op :: ops) = plainOf [op] ++ plainOf ops := by
   cases op <;> simp [plainOf]
@@ -45,7 +47,7 @@ theorem written2_eq (ops : List (SyncOp2 K V)) (k : K) : written2 ops k = writte
     | hash r => simp only [List.foldl_cons, plainOf]; exact ih _
     | fetchStale i j R => simp only [List.foldl_cons, plainOf]; exact ih _
 
-omit [LinearOrder K] [LinearOrder V] in
+omit [LinearOrder K] [SemilatticeSup V] [DecidableEq V] in
 theorem countWrites2_eq (ops : List (SyncOp2 K V)) : countWrites2 ops = (plainOf ops).length := by
   unfold countWrites2
   induction ops with
@@ -53,7 +55,7 @@ theorem countWrites2_eq (ops : List (SyncOp2 K V)) : countWrites2 ops = (plainOf
   | cons op ops ih =>
     cases op <;> simp [plainOf, ih]
 
-omit [LinearOrder K] [LinearOrder V] in
+omit [LinearOrder K] [SemilatticeSup V] [DecidableEq V] in
 theorem mem_plainOf (ops : List (SyncOp2 K V)) (r : Nat) (k : K) (v : V)
     (h : SyncOp.write r k v ∈ plainOf ops) : SyncOp2.write r k v ∈ ops := by
   induction ops with
@@ -231,25 +233,30 @@ theorem syncRun2_inv (lvl : K → Nat) (hlvl : ∀ k, lvl k < 255) (hc : HashCfg
     obtain ⟨rs2, h2, hl2, hi2⟩ := ih rs1 hi1
     exact ⟨rs2, by simp [syncRun2, h1, h2], hl2.trans hl1, hi2⟩
 
-/-- Safety under join for extended schedules: stale / arbitrary range fetches can neither lose nor
-invent data. -/
-theorem syncRun2_safe (lvl : K → Nat) (hlvl : ∀ k, lvl k < 255) (hc : HashCfg K V D)
+/-- Safety under the join merge (ANY join-semilattice) for extended schedules: stale / arbitrary
+range fetches can neither lose nor invent data — every store is below the join of everything written,
+that join is the least upper bound of the stores, every stored value is a join of written values. -/
+theorem syncRun2_safe_join (lvl : K → Nat) (hlvl : ∀ k, lvl k < 255) (hc : HashCfg K V D)
     (n : Nat) (ops : List (SyncOp2 K V))
     (hw : ∀ op ∈ ops, match op with | .write r _ _ => r < n | _ => True) :
     ∃ rs, syncRun2 lvl hc .joinMax (freshReplicas n : List (Replica K V D)) ops = .ok rs ∧ rs.length = n ∧
       (∀ r ∈ rs, RInv lvl hc r) ∧
       (∀ r ∈ rs, ∀ k, optLe (lookupKV k r.store) (written2 ops k)) ∧
-      (∀ k v, written2 ops k = some v → ∃ r ∈ rs, lookupKV k r.store = some v) := by
+      (∀ k u, (∀ r ∈ rs, optLe (lookupKV k r.store) u) → optLe (written2 ops k) u) ∧
+      (∀ r ∈ rs, ∀ k x, lookupKV k r.store = some x → GenBy (plainOf ops) k x) := by
   obtain ⟨rs, hrun, hl, hi, hg⟩ := run2_good lvl hlvl hc n ops hw
-  refine ⟨rs, hrun, hl, hi, ?_, ?_⟩
+  refine ⟨rs, hrun, hl, hi, ?_, ?_, ?_⟩
   · intro r hr k
     rw [written2_eq]
     exact hg.le _ (mem_storesOf rs r hr) k
-  · intro k v hv
-    rw [written2_eq] at hv
-    obtain ⟨s, hs, hsv⟩ := hg.att k v hv
+  · intro k u hu
+    rw [written2_eq]
+    apply hg.lub k u
+    intro s hs
     obtain ⟨r, hr, rfl⟩ := List.mem_map.1 hs
-    exact ⟨r, hr, hsv⟩
+    exact hu r hr
+  · intro r hr k x hx
+    exact hg.gen _ (mem_storesOf rs r hr) k x hx
 
 /-- Liveness: from the state reached by ANY extended schedule (stale fetches included), enough fair
 sweeps of fresh atomic pulls bring every replica to the join of everything written, with equal
@@ -277,15 +284,11 @@ theorem syncRun2_live (lvl : K → Nat) (hlvl : ∀ k, lvl k < 255) (hc : HashCf
   · intro r hr k
     rw [written2_eq]
     have hm := mem_storesOf rs r hr
-    cases hW : written (plainOf ops) k with
-    | none =>
-      have := hg.le _ hm k
-      rw [hW] at this
-      exact optLe_none this
-    | some v =>
-      obtain ⟨s, hs', hsv⟩ := hg.att k v hW
-      rw [heq _ hm _ hs']
-      exact hsv
+    apply optLe_antisymm (hg.le _ hm k)
+    apply hg.lub k
+    intro s hs'
+    rw [heq _ hs' _ hm]
+    exact optLe_refl _
   · intro r₁ h₁ r₂ h₂
     have hst : r₁.store = r₂.store := heq _ (mem_storesOf rs r₁ h₁) _ (mem_storesOf rs r₂ h₂)
     refine ⟨hst, ?_⟩
@@ -300,6 +303,34 @@ theorem syncRun2_live (lvl : K → Nat) (hlvl : ∀ k, lvl k < 255) (hc : HashCf
 
 end Mst
 
+namespace Mst
+section Linear
+variable {K V D : Type} [LinearOrder K] [LinearOrder V] [DecidableEq D]
+
+/-- Safety under join on a LINEAR order for extended schedules: stale / arbitrary range fetches can
+neither lose nor invent data (the join of everything written is held by some replica). -/
+theorem syncRun2_safe (lvl : K → Nat) (hlvl : ∀ k, lvl k < 255) (hc : HashCfg K V D)
+    (n : Nat) (ops : List (SyncOp2 K V))
+    (hw : ∀ op ∈ ops, match op with | .write r _ _ => r < n | _ => True) :
+    ∃ rs, syncRun2 lvl hc .joinMax (freshReplicas n : List (Replica K V D)) ops = .ok rs ∧ rs.length = n ∧
+      (∀ r ∈ rs, RInv lvl hc r) ∧
+      (∀ r ∈ rs, ∀ k, optLe (lookupKV k r.store) (written2 ops k)) ∧
+      (∀ k v, written2 ops k = some v → ∃ r ∈ rs, lookupKV k r.store = some v) := by
+  obtain ⟨rs, hrun, hl, hi, hle, hlub, -⟩ := syncRun2_safe_join lvl hlvl hc n ops hw
+  refine ⟨rs, hrun, hl, hi, hle, ?_⟩
+  intro k v hv
+  obtain ⟨s, hs, hsv⟩ := attained_of_lub k (storesOf rs) v
+    (fun s hs => by
+      obtain ⟨r, hr, rfl⟩ := List.mem_map.1 hs
+      exact hv ▸ hle r hr k)
+    (fun u hu => hv ▸ hlub k u (fun r hr => hu _ (mem_storesOf rs r hr)))
+  obtain ⟨r, hr, rfl⟩ := List.mem_map.1 hs
+  exact ⟨r, hr, hsv⟩
+
+end Linear
+end Mst
+
+#print axioms Mst.syncRun2_safe_join
 #print axioms Mst.syncRun2_inv
 #print axioms Mst.syncRun2_safe
 #print axioms Mst.syncRun2_live
